@@ -18,7 +18,7 @@ Record case := {
   c_entries_strict : option (list obs_entry);    (* None = not comparable (pint comments present) or pipeline failed *)
   c_entries_relaxed : option (list obs_entry);
   c_lone_cr : bool;                              (* the file is in the known class where yaml.v3 coordinates leave the file:
-                                                    C02-lone-cr (CR without LF, NEL, LS, PS) or C02-yaml-error-after-eof *)
+                                                    C02-lone-cr (CR without LF, NEL, LS, PS) *)
   c_expand : list (Z * Z * option (list Z));     (* (First, Last, what the real diags.LineRange.Expand returned; None = panic) *)
   c_inject : list (Z * list (list Z) * option (list Z))
                                                  (* (len(Split(content)), position lines of every diagnostic of a problem, the source
